@@ -248,6 +248,9 @@ func (w *world) enabled(m *simMenu, cnt simCounters) []simEvent {
 		}
 		if m.Crashes && cnt.Crashes > 0 {
 			add(simEvent{K: "K", N: n.idx, Dev: 1})
+			if m.Shutdowns {
+				add(simEvent{K: "SD", N: n.idx, Dev: 1})
+			}
 		}
 	}
 	if m.Partitions {
